@@ -268,6 +268,8 @@ func schedRun(raw json.RawMessage) (interface{}, error) {
 	out["y"] = yres
 	if a.PauseAt == 0 {
 		out["labels"] = c.Labels
+	} else if paused {
+		out["labelsBefore"] = c.LabelsUpTo(a.PauseAt - 1)
 	}
 	return out, nil
 }
